@@ -26,6 +26,38 @@ CHECKS = [
      "design_ref": "7 C13",
      "level_note": TB + " Modelled, not verified: u64 wrap-around of the log's own counters (needs about 2^63 appends), allocation. The read theorems carry the hypothesis |hist|+n < 2^64; Rust panic-freedom is by correspondence.",
      "technique": "Lean 4 proof (invariant over append sequences, refinement of readv to take/drop of the tagged retained history) + exhaustive small-scope and random differential correspondence with an implementation-side monitor"},
+    {"property_id": "C05",
+     "text": "Theorems for every byte list, every size limit (incl. c5's None), every copy (c4, c5, b4, b5) and an ARBITRARY packet-body reader: a packet is produced only from a "
+             "complete within-limit frame, consumes exactly the declared frame and shows the body reader exactly the frame's bytes; InsufficientBytes(n) from the framing layer iff "
+             "header or frame incomplete (with the exact n, never over-asking, nothing consumed); remaining length > max => PayloadSizeLimitExceeded as soon as the header is complete "
+             "(never buffered, never accepted); every non-wait outcome is prefix-stable; hence Framed+Codec::decode (client) and Network::read/read_bytes/readv as driven by "
+             "RemoteLink::start (broker, any max_connection_buffer_len) yield, for every chunking, exactly the packets / first error / kind of end of the concatenation; "
+             "variable-byte-integer round trip, canonical length = len_len, <= 4 bytes, 4th continuation byte rejected, encoder limit, over constants regenerated from the four sources. "
+             "Two clauses are FALSE on the as-is code and are stated as witness + _partial: (a) b5 read_mut panics (unreachable!) exactly on CONNACK/UNSUBACK frames with a body; "
+             "(b) the v5 body readers (c5, b5) return InsufficientBytes for complete frames with a truncated property length, which the loops take for a wait after the frame has been "
+             "dropped - a wait on a complete frame and, as a consequence, chunking-dependent results; the chunking theorems therefore carry the hypothesis 'body reader never answers "
+             "InsufficientBytes' (true of the v4 readers). Correspondence: the four real decoders on every string <= 2 bytes, 3-byte strings (16 first bytes quick / all 16.8M thorough), "
+             "every first byte x remaining-length prefixes over a boundary alphabet x body length declared-1/declared/declared+1, valid frames of all packet types from the repo's encoders "
+             "mutated (truncate everywhere, bit flips, spliced, lying length, padded length), random bytes, 11 limits; the real Codec::decode driven as Framed does and the real "
+             "rumqttd Network::read/readv over an in-memory socket on every split of short streams into <= 4 chunks (quick) / all splits <= 16 bytes, <= 5 chunks <= 24 bytes (thorough) "
+             "plus random chunkings incl. 1-byte dribble, each compared with the one-chunk run, under catch_unwind.",
+     "design_ref": "7 C05",
+     "level_note": TB + " NOT modelled: packet body readers (C04) - the body is a universally quantified parameter, instantiated in the correspondence from the implementation's own per-frame answers; "
+                   "tokio_util's Framed loop is mirrored in the harness (the repo's Codec is called for real), tokio/bytes internals trusted. Never-panics is decided by the correspondence (model total). "
+                   "Thorough scope 'all splits of streams <= 24 bytes' is cut to all splits for <= 16 bytes and <= 5 chunks for <= 24 bytes (2^23 splits per stream otherwise).",
+     "technique": "Lean 4 proof (prefix-stability => induction over chunk lists with fuel-indexed loop models; spec of the variable byte integer as independent function) + exhaustive small-scope and mutation-based differential correspondence with monitors on the implementation outputs"},
+    {"property_id": "C04",
+     "text": "Theorems (Lean, all proved, no sorry; names in Proofs/Props/C04.lean). MQTT 3.1.1, client and broker copy, all 14 packet types: for every well-formed value "
+             "(explicit decidable wf: fields fit their width, String fields valid UTF-8, qos>0 <-> pkid!=0, non-empty SUBSCRIBE/SUBACK lists, remaining length <= 268435455, canonical representation where the broker's shared v4/v5 enum has spare values) "
+             "encode succeeds, decode(encode p ++ rest) = (p, rest) for every rest and every max >= frame size, bytes produced = value returned by write = size(); client-encoded bytes decode in the broker model to the field-wise same content and conversely; oversize is refused. "
+             "MQTT 5, both copies, all 14 packet types INCLUDING CONNECT/CONNACK/DISCONNECT with every property (property block modelled as the writer's fixed order + the reader's `while cursor < len` loop with the source's cursor accounting): the same four statements as `_partial` theorems whose extra hypotheses are exactly the shapes on which the unchanged code violates the property, "
+             "each with a `decide`d counter-example theorem and a KNOWN_FINDINGS entry: (1) PUBLISH with >=3 subscription identifiers (cursor double count, both crates), (2) DISCONNECT with reason != Normal and no properties (declares 1 byte, writes 2, both crates), (3) client cannot read its own plain DISCONNECT e0 00, (4) broker V5::read_mut panics on CONNACK/UNSUBACK. "
+             "Variable-byte integer round-trip/width lemma for all lengths (covers 127/128, 16383/16384, 2097151/2097152). Code tables (QoS, connect return codes, SubAck codes, PubAck/PubRec/PubRel/PubComp/UnsubAck/Disconnect reasons; 35 tables, decoders over all 256 bytes, encoders over all enum variants) are produced by executing the real code (`vh tables`) on every run and proved equal to the model's functions by `decide`. "
+             "Correspondence (vh codec): ~20k (quick) / 1.5M (thorough) generated packet values per copy built from the repo's structs (all kinds, flag combinations, pkid/string-length/remaining-length boundaries incl. 2 MiB frames, every subset of optional v5 properties, 0-3 user properties / subscription ids, 1-4 filters/codes, ~15 % deliberately outside wf) pushed through the real write, size, read of the same copy and read of the other crate, each under catch_unwind; bytes, return value, size, decoded packets and consumed counts compared with the model, and the property evaluated directly on the implementation's outputs; plus exhaustive decode probes (all 256 v5 property ids x 13 property positions x 2 copies, all code bytes, all first bytes). "
+             "Not covered: the client's write-only v5 Auth packet (no reader exists); Rust values no copy can hold.",
+     "design_ref": "7 C04",
+     "level_note": TB + " Strings are byte lists with an executable UTF-8 acceptance predicate (theorems use it abstractly through wf; tied to Rust std by every generated string). bytes::Bytes/BytesMut operations are modelled as list operations. Never-panics on well-formed values is decided by the correspondence (each real call under catch_unwind); v5 property identifier tables are compared exhaustively in the correspondence run, not by a kernel-checked table.",
+     "technique": "Lean 4 proof (round-trip lemmas for wire primitives, property-block loop invariant, per-packet composition; tables by execution + decide) + differential correspondence with implementation-side property monitor"},
 ]
 
 _pending = "machinery for this property is still being built in this session (see DESIGN.md section 10 build order); not claimed until its model, theorems and correspondence exist"
